@@ -201,7 +201,7 @@ func RunScheduled(t *Tape, strategy int, procs []*Proc, bodies []func() error) *
 					}
 				}
 			}
-			deadline := time.After(20 * time.Second)
+			deadline := time.After(60 * time.Second)
 			for live > 0 {
 				select {
 				case ev := <-s.events:
